@@ -118,8 +118,11 @@ const (
 )
 
 func literalStringMustEscapeRune(r rune, ascii bool) stringLiteralQuoteRuneEscapeMode {
-	if r == 0x0022 || r == 0x005C || r == 0x000A || r == 0x000D {
+	// canonical N-Quads: ECHAR for BS HT LF FF CR " \, UCHAR for the remaining C0 controls and DEL
+	if r == 0x0022 || r == 0x005C || r == 0x000A || r == 0x000D || r == 0x0009 || r == 0x0008 || r == 0x000C {
 		return stringLiteralQuoteRuneEscapeECHAR
+	} else if r <= 0x001F || r == 0x007F {
+		return stringLiteralQuoteRuneEscapeUCHAR4
 	} else if ascii {
 		if r > 0xffff {
 			return stringLiteralQuoteRuneEscapeUCHAR8
